@@ -607,9 +607,53 @@ Qed.
 Lemma w_le i : (w i <= 2 * length (encode i))%nat.
 Proof. apply (proj1 (w_bound (w i))). lia. Qed.
 
+(* the evaluable parser is the parser of Cbor.v *)
+Lemma take_g_eq n bs : take_g n bs = take (N.to_nat n) bs.
+Proof.
+  unfold take_g, take. destruct (n <=? N.of_nat (length bs)) eqn:E; [reflexivity|].
+  apply N.leb_gt in E. replace (N.to_nat n <=? length bs)%nat with false; [reflexivity|].
+  symmetry. apply Nat.leb_gt. lia.
+Qed.
+
+Lemma parse_unfold f bs :
+  parse (S f) bs =
+  match special bs with
+  | Some res => Some res
+  | None =>
+    match parse_head bs with
+    | None => None
+    | Some (m, n, r) =>
+      if m =? 0 then Some (CUint n, r)
+      else if m =? 1 then Some (CNint n, r)
+      else if m =? 2 then match take (N.to_nat n) r with Some (a, r') => Some (CBytes a, r') | None => None end
+      else if m =? 3 then match take (N.to_nat n) r with Some (a, r') => Some (CText a, r') | None => None end
+      else if m =? 4 then match parse_seq f n r with Some (l, r') => Some (CArr l, r') | None => None end
+      else if m =? 6 then match parse f r with Some (i, r') => Some (CTag n i, r') | None => None end
+      else None
+    end
+  end.
+Proof.
+  destruct bs as [|b r]; [reflexivity|].
+  destruct b as [|p]; [reflexivity|].
+  cbn [parse special].
+  do 8 (destruct p as [p|p|]; try reflexivity).
+Qed.
+
+Lemma parse_g_eq : forall fuel,
+  (forall bs, parse_g fuel bs = parse fuel bs) /\ (forall n bs, parse_seq_g fuel n bs = parse_seq fuel n bs).
+Proof.
+  induction fuel as [|f [IHp IHs]]; [split; reflexivity|]. split.
+  - intros bs. rewrite parse_unfold. cbn [parse_g].
+    destruct (special bs); [reflexivity|].
+    destruct (parse_head bs) as [[[m n] r]|]; [|reflexivity].
+    rewrite !take_g_eq, IHs, IHp. reflexivity.
+  - intros n bs. cbn [parse_seq_g parse_seq]. destruct (n =? 0); [reflexivity|].
+    rewrite IHp. destruct (parse f bs) as [[i r]|]; [|reflexivity]. rewrite IHs. reflexivity.
+Qed.
+
 Theorem parse_bytes_encode i rest : wf i -> parse_bytes (encode i ++ rest) = Some (i, rest).
 Proof.
-  intros H. unfold parse_bytes. apply (proj1 (roundtrip _)); [|exact H].
+  intros H. unfold parse_bytes. rewrite (proj1 (parse_g_eq _)). apply (proj1 (roundtrip _)); [|exact H].
   rewrite app_length. pose proof (w_le i). lia.
 Qed.
 
